@@ -189,7 +189,10 @@ def pyfftw_call(array_in, array_out, direction='forward', axes=None,
         # an in-place transform, this applies to the output array as well.
         plan_arr_in = np.empty_like(array_in)
         plan_arr_out = plan_arr_in if array_out is array_in else array_out
-        flags = [_flag_odl_to_pyfftw(planning_effort), 'FFTW_DESTROY_INPUT']
+        # No 'FFTW_DESTROY_INPUT' here: the plan is executed on the array
+        # holding the data, which a plan made with that flag may overwrite
+        # (depending on the algorithm the planner selects)
+        flags = [_flag_odl_to_pyfftw(planning_effort)]
     else:
         plan_arr_in = array_in
         plan_arr_out = array_out
